@@ -12,6 +12,7 @@
      inspect     Validate* / Marshal*: nothing changes                           (C10.inspect)
    Independent events:
      reuse       decoding into a used value = decoding into a fresh one           (C10.reuse)
+     subslice    a decoder given a sub-slice with spare capacity writes nowhere in the caller's backing array (C10.bounds)
      bandiso     mutating one band instance leaves another (and a fresh one) unchanged (C10.band) *)
 EXTENDS Integers, Sequences, SequencesExt, FiniteSets, TLC, Json, IOUtils, Bytes, MACCommands, Frame, Crypto
 
@@ -62,12 +63,15 @@ OwnFails(e) ==
 
 ReuseFails(e) == IF e.err2 # "" \/ e.errfresh # "" THEN Tag(e.err2 = e.errfresh, "C10.reuse")
                  ELSE Tag(e.used = e.fresh, "C10.reuse")
+\* a decoder given bufs[lo..hi) must leave the WHOLE backing array (incl. the spare capacity behind hi) untouched
+SubsliceFails(e) == Tag(e.post = e.pre, "C10.bounds")
 BandFails(e) == Tag(e.after = e.before /\ e.fresh = e.before, "C10.band")
 
 Fails(e) == CASE e.ev = "reset" -> <<>>
               [] e.ev = "own" -> OwnFails(e)
               [] e.ev = "reuse" -> ReuseFails(e)
               [] e.ev = "bandiso" -> BandFails(e)
+              [] e.ev = "subslice" -> SubsliceFails(e)
               [] OTHER -> <<"unknown-event">>
 Init == l = 1 /\ nfail = 0 /\ bufs = <<>> /\ vals = <<>>
 \* after a mismatch the model adopts the OBSERVED state, so that the rest of the trace is examined
